@@ -5,6 +5,114 @@
 -/
 namespace Sidetree.ExpectedSkeletons
 
+/-- pkg/versions/1_0/doctransformer/didtransformer/transformer.go:TransformDocument -/
+def skel_TransformDocument : List String :=
+  ["docMetadata, err := metadata.New( metadata.WithIncludeUnpublishedOperations(t.includeUnpublishedOperations), metadata.WithIncludePublishedOperations(t.includePublishedOperations)). CreateDocumentMetadata(rm, info)", "if err != nil {", "  return nil, err", "}", "id, ok := info[document.IDProperty]", "if !ok {", "  return nil, error(...)", "}", "internal := document.DidDocumentFromJSONLDObject(rm.Doc.JSONLdObject())", "external := document.DidDocumentFromJSONLDObject(make(document.DIDDocument))", "ctx := []interface{}{...}", "for _ := range t.methodCtx {", "  ctx = append(ctx, c)", "}", "if t.includeBase {", "  ctx = append(ctx, getBase(id.(string)))", "}", "alsoKnownAs := internal.AlsoKnownAs()", "if len(alsoKnownAs) > 0 {", "  external[document.AlsoKnownAs] = alsoKnownAs", "}", "external[document.ContextProperty] = ctx", "external[document.IDProperty] = id", "result := &document.ResolutionResult{...}", "err = t.processKeys(internal, result)", "if err != nil {", "  return nil, error(...)", "}", "t.processServices(internal, result)", "return result, nil"]
+
+/-- pkg/versions/1_0/doctransformer/didtransformer/transformer.go:processKeys -/
+def skel_processKeys : List String :=
+  ["purposes := map[string][]interface{}{...}", "did := resolutionResult.Document.ID()", "var publicKeys []document.PublicKey", "var keyContexts []string", "for _ := range internal.PublicKeys() {", "  id := t.getObjectID(did, pk.ID())", "  externalPK := make(document.PublicKey)", "  externalPK[document.IDProperty] = id", "  externalPK[document.TypeProperty] = pk.Type()", "  externalPK[document.ControllerProperty] = did", "  if pkJwk := pk.PublicKeyJwk(); pkJwk != nil {", "    if pk.Type() == ed25519VerificationKey2018 {", "      ed25519PubKey, err := getED2519PublicKey(pkJwk)", "      if err != nil {", "        return err", "      }", "      externalPK[document.PublicKeyBase58Property] = base58.Encode(ed25519PubKey)", "    } else {", "      if pk.Type() == ed25519VerificationKey2020 { ed25519PubKey, err := getED2519PublicKey(pkJwk) if err != nil { return err } multibaseEncode, err := multibase.Encode(multibase.Base58BTC, ed25519PubKey) if err != nil { return err } externalPK[document.PublicKeyMultibaseProperty] = multibaseEncode } else { externalPK[document.PublicKeyJwkProperty] = pkJwk }", "    }", "  } else {", "    if pkb58 := pk.PublicKeyBase58(); pkb58 != \"\" { externalPK[document.PublicKeyBase58Property] = pkb58 } else if pkMultibase := pk.PublicKeyMultibase(); pkMultibase != \"\" { externalPK[document.PublicKeyMultibaseProperty] = pkMultibase } else { externalPK[document.PublicKeyJwkProperty] = nil }", "  }", "  keyContext, ok := t.keyCtx[pk.Type()]", "  if !ok {", "    return error(...)", "  }", "  if !contains(keyContexts, keyContext) {", "    keyContexts = append(keyContexts, keyContext)", "  }", "  publicKeys = append(publicKeys, externalPK)", "  for _ := range pk.Purpose() {", "    switch p {", "    case document.KeyPurposeAuthentication:", "      purposes[document.AuthenticationProperty] = append(purposes[document.AuthenticationProperty], id)", "    case document.KeyPurposeAssertionMethod:", "      purposes[document.AssertionMethodProperty] = append(purposes[document.AssertionMethodProperty], id)", "    case document.KeyPurposeKeyAgreement:", "      purposes[document.KeyAgreementProperty] = append(purposes[document.KeyAgreementProperty], id)", "    case document.KeyPurposeCapabilityDelegation:", "      purposes[document.DelegationKeyProperty] = append(purposes[document.DelegationKeyProperty], id)", "    case document.KeyPurposeCapabilityInvocation:", "      purposes[document.InvocationKeyProperty] = append(purposes[document.InvocationKeyProperty], id)", "    }", "  }", "}", "if len(publicKeys) > 0 {", "  resolutionResult.Document[document.VerificationMethodProperty] = publicKeys", "  ctx := append(resolutionResult.Document.Context(), interfaceArray(keyContexts)...)", "  resolutionResult.Document[document.ContextProperty] = ctx", "}", "for key := range purposes {", "  if len(value) > 0 {", "    resolutionResult.Document[key] = value", "  }", "}", "return nil"]
+
+/-- pkg/versions/1_0/doctransformer/didtransformer/transformer.go:processServices -/
+def skel_processServices : List String :=
+  ["var services []document.Service", "did := resolutionResult.Document.ID()", "for _ := range internal.Services() {", "  externalService := make(document.Service)", "  externalService[document.IDProperty] = t.getObjectID(did, sv.ID())", "  externalService[document.TypeProperty] = sv.Type()", "  externalService[document.ServiceEndpointProperty] = sv.ServiceEndpoint()", "  for key := range sv {", "    _, ok := externalService[key]", "    if !ok {", "      externalService[key] = value", "    }", "  }", "  services = append(services, externalService)", "}", "if len(services) > 0 {", "  resolutionResult.Document[document.ServiceProperty] = services", "}"]
+
+/-- pkg/versions/1_0/doctransformer/didtransformer/transformer.go:getObjectID -/
+def skel_getObjectID : List String :=
+  ["relativeID := \"#\" + objectID", "if t.includeBase {", "  return relativeID", "}", "return docID + relativeID"]
+
+/-- pkg/versions/1_0/doctransformer/didtransformer/transformer.go:getBase -/
+def skel_getBase : List String :=
+  ["return &struct { Base string `json:\"@base\"` }{...}"]
+
+/-- pkg/versions/1_0/doctransformer/didtransformer/transformer.go:getED2519PublicKey -/
+def skel_getED2519PublicKey : List String :=
+  ["jwk := &jws.JWK{...}", "return internaljws.GetED25519PublicKey(jwk)"]
+
+/-- pkg/versions/1_0/doctransformer/didtransformer/transformer.go:New -/
+def skel_New : List String :=
+  ["transformer := &Transformer{...}", "for _ := range opts {", "  opt(transformer)", "}", "if len(transformer.keyCtx) == 0 {", "  transformer.keyCtx = defaultKeyContextMap", "}", "return transformer"]
+
+/-- pkg/versions/1_0/doctransformer/metadata/metadata.go:CreateDocumentMetadata -/
+def skel_CreateDocumentMetadata : List String :=
+  ["if rm == nil || rm.Doc == nil {", "  return nil, error(...)", "}", "if info == nil {", "  return nil, error(...)", "}", "published, ok := info[document.PublishedProperty]", "if !ok {", "  return nil, error(...)", "}", "methodMetadata := make(document.Metadata)", "methodMetadata[document.PublishedProperty] = published", "if rm.RecoveryCommitment != \"\" {", "  methodMetadata[document.RecoveryCommitmentProperty] = rm.RecoveryCommitment", "}", "if rm.UpdateCommitment != \"\" {", "  methodMetadata[document.UpdateCommitmentProperty] = rm.UpdateCommitment", "}", "if rm.AnchorOrigin != nil {", "  methodMetadata[document.AnchorOriginProperty] = rm.AnchorOrigin", "}", "if t.includeUnpublishedOperations && len(rm.UnpublishedOperations) > 0 {", "  methodMetadata[document.UnpublishedOperationsProperty] = getUnpublishedOperations(rm.UnpublishedOperations)", "}", "if t.includePublishedOperations && len(rm.PublishedOperations) > 0 {", "  methodMetadata[document.PublishedOperationsProperty] = getPublishedOperations(rm.PublishedOperations)", "}", "docMetadata := make(document.Metadata)", "docMetadata[document.MethodProperty] = methodMetadata", "if rm.Deactivated {", "  docMetadata[document.DeactivatedProperty] = rm.Deactivated", "}", "canonicalID, ok := info[document.CanonicalIDProperty]", "if ok {", "  docMetadata[document.CanonicalIDProperty] = canonicalID", "}", "equivalentID, ok := info[document.EquivalentIDProperty]", "if ok {", "  docMetadata[document.EquivalentIDProperty] = equivalentID", "}", "if published.(bool) {", "  docMetadata[document.CreatedProperty] = time.Unix(int64(rm.CreatedTime), 0).UTC().Format(time.RFC3339)", "}", "if rm.VersionID != \"\" {", "  docMetadata[document.VersionIDProperty] = rm.VersionID", "  if rm.UpdatedTime > 0 {", "    docMetadata[document.UpdatedProperty] = time.Unix(int64(rm.UpdatedTime), 0).UTC().Format(time.RFC3339)", "  }", "}", "return docMetadata, nil"]
+
+/-- pkg/versions/1_0/doctransformer/metadata/metadata.go:getPublishedOperations -/
+def skel_getPublishedOperations : List String :=
+  ["sortOperations(ops)", "uniqueOps := make(map[string]bool)", "var publishedOps []*PublishedOperation", "for _ := range ops {", "  _, ok := uniqueOps[op.CanonicalReference]", "  if !ok {", "    publishedOps = append(publishedOps, &PublishedOperation{ Type: op.Type, OperationRequest: op.OperationRequest, TransactionTime: op.TransactionTime, TransactionNumber: op.TransactionNumber, ProtocolVersion: op.ProtocolVersion, CanonicalReference: op.CanonicalReference, EquivalentReferences: op.EquivalentReferences, AnchorOrigin: op.AnchorOrigin, })", "    uniqueOps[op.CanonicalReference] = true", "  }", "}", "return publishedOps"]
+
+/-- pkg/versions/1_0/doctransformer/metadata/metadata.go:getUnpublishedOperations -/
+def skel_getUnpublishedOperations : List String :=
+  ["sortOperations(ops)", "unpublishedOps := make([]*UnpublishedOperation, len(ops))", "for i := range ops {", "  unpublishedOps[i] = &UnpublishedOperation{...}", "}", "return unpublishedOps"]
+
+/-- pkg/versions/1_0/doctransformer/metadata/metadata.go:sortOperations -/
+def skel_sortOperations : List String :=
+  ["sort.Slice(ops, func(i, j int) bool { if ops[i].TransactionTime != ops[j].TransactionTime { return ops[i].TransactionTime < ops[j].TransactionTime } return ops[i].TransactionNumber < ops[j].TransactionNumber })"]
+
+/-- pkg/versions/1_0/operationparser/method.go:ParseDID -/
+def skel_method_ParseDID : List String :=
+  ["var err error", "withoutNamespace := strings.ReplaceAll(shortOrLongFormDID, namespace+didSeparator, \"\")", "posLongFormSeparator := strings.Index(withoutNamespace, longFormSeparator)", "if posLongFormSeparator == -1 {", "  return shortOrLongFormDID, nil, nil", "}", "endOfDIDPos := strings.LastIndex(shortOrLongFormDID, longFormSeparator)", "did := shortOrLongFormDID[0:endOfDIDPos]", "longFormDID := shortOrLongFormDID[endOfDIDPos+1:]", "createRequest, err := parseInitialState(longFormDID)", "if err != nil {", "  return \"\", nil, err", "}", "createRequestBytes, err := canonicalizer.MarshalCanonical(createRequest)", "if err != nil {", "  return \"\", nil, err", "}", "return did, createRequestBytes, nil"]
+
+/-- pkg/versions/1_0/operationparser/method.go:parseInitialState -/
+def skel_method_parseInitialState : List String :=
+  ["decodedJCS, err := encoder.DecodeString(initialState)", "if err != nil {", "  return nil, err", "}", "var createRequest model.CreateRequest", "err = json.Unmarshal(decodedJCS, &createRequest)", "if err != nil {", "  return nil, err", "}", "expected, err := canonicalizer.MarshalCanonical(createRequest)", "if err != nil {", "  return nil, err", "}", "if encoder.EncodeToString(expected) != initialState {", "  return nil, error(...)", "}", "createRequest.Operation = operation.TypeCreate", "return &createRequest, nil"]
+
+/-- pkg/vdr/sidetreelongform/dochandler/dochandler.go:ResolveDocument -/
+def skel_dochandler_ResolveDocument : List String :=
+  ["ns, err := r.getNamespace(longFormDID)", "if err != nil {", "  return nil, error(...)", "}", "pv, err := r.protocolClient.Current()", "if err != nil {", "  return nil, err", "}", "shortFormDID, createReq, err := pv.OperationParser().ParseDID(ns, longFormDID)", "if err != nil {", "  return nil, error(...)", "}", "if createReq == nil {", "  return nil, error(...)", "}", "uniquePortion, err := getSuffix(shortFormDID)", "if err != nil {", "  return nil, error(...)", "}", "return r.resolveRequestWithInitialState(uniquePortion, longFormDID, createReq, pv)"]
+
+/-- pkg/vdr/sidetreelongform/dochandler/dochandler.go:getNamespace -/
+def skel_dochandler_getNamespace : List String :=
+  ["if strings.HasPrefix(shortOrLongFormDID, r.namespace+docutil.NamespaceDelimiter) {", "  return r.namespace, nil", "}", "return \"\", error(...)"]
+
+/-- pkg/vdr/sidetreelongform/dochandler/dochandler.go:resolveRequestWithInitialState -/
+def skel_dochandler_resolveRequestWithInitialState : List String :=
+  ["op, err := pv.OperationParser().Parse(r.namespace, initialBytes)", "if err != nil {", "  return nil, error(...)", "}", "if uniqueSuffix != op.UniqueSuffix {", "  return nil, error(...)", "}", "createRequestJCS := longFormDID[strings.LastIndex(longFormDID, docutil.NamespaceDelimiter)+1:]", "ti := docutil.GetTransformationInfoForUnpublished(r.namespace, \"\", \"\", uniqueSuffix, createRequestJCS)", "return r.getCreateResponse(op, ti, pv)"]
+
+/-- pkg/vdr/sidetreelongform/dochandler/dochandler.go:getSuffix -/
+def skel_dochandler_getSuffix : List String :=
+  ["parts := strings.Split(shortFormDID, docutil.NamespaceDelimiter)", "const minParts = 3", "if len(parts) < minParts {", "  return \"\", error(...)", "}", "suffix := parts[len(parts)-1]", "return suffix, nil"]
+
+/-- pkg/vdr/sidetreelongform/dochandler/dochandler.go:ProcessOperation -/
+def skel_dochandler_ProcessOperation : List String :=
+  ["pv, err := r.protocolClient.Current()", "if err != nil {", "  return nil, err", "}", "op, err := pv.OperationParser().Parse(r.namespace, operationBuffer)", "if err != nil {", "  return nil, error(...)", "}", "if op.Type != operation.TypeCreate {", "  return nil, error(...)", "}", "jcsBytes, err := canonicalizer.MarshalCanonical(operationBuffer)", "if err != nil {", "  return nil, error(...)", "}", "requestJCS := encoder.EncodeToString(jcsBytes)", "ti := docutil.GetTransformationInfoForUnpublished(r.namespace, \"\", \"\", op.UniqueSuffix, requestJCS)", "return r.getCreateResponse(op, ti, pv)"]
+
+/-- pkg/vdr/sidetreelongform/dochandler/dochandler.go:getCreateResponse -/
+def skel_dochandler_getCreateResponse : List String :=
+  ["rm, err := docutil.GetCreateResult(op, pv)", "if err != nil {", "  return nil, err", "}", "return pv.DocumentTransformer().TransformDocument(rm, ti)"]
+
+/-- pkg/vdr/sidetreelongform/dochandler/dochandler.go:createProtocolClient -/
+def skel_dochandler_createProtocolClient : List String :=
+  ["registry := clientregistry.New()", "var clientVersions []protocol.Version", "config := &common.ProtocolConfig{...}", "for _ := range versions {", "  cv, err := registry.CreateClientVersion(version, config)", "  if err != nil {", "    return nil, error(...)", "  }", "  clientVersions = append(clientVersions, cv)", "}", "verProvider, err := verprovider.New(clientVersions, verprovider.WithCurrentProtocolVersion(currentVersion))", "if err != nil {", "  return nil, error(...)", "}", "nsProvider := nsprovider.New()", "nsProvider.Add(namespace, verProvider)", "return nsProvider.ForNamespace(namespace)"]
+
+/-- pkg/docutil/docutil.go:GetTransformationInfoForUnpublished -/
+def skel_docutil_GetTransformationInfoForUnpublished : List String :=
+  ["ti := make(protocol.TransformationInfo)", "ti[document.PublishedProperty] = false", "id := fmt.Sprintf(\"%s:%s\", namespace, suffix)", "if label != \"\" {", "  id = fmt.Sprintf(\"%s:%s:%s\", namespace, label, suffix)", "}", "var equivalentIDs []string", "if createRequestJCS != \"\" {", "  equivalentIDs = append(equivalentIDs, id)", "}", "if label != \"\" && domain != \"\" {", "  equivalentID := id", "  if !strings.Contains(label, domain) {", "    equivalentID = fmt.Sprintf(\"%s:%s:%s:%s\", namespace, domain, label, suffix)", "  }", "  equivalentIDs = append(equivalentIDs, equivalentID)", "}", "if len(equivalentIDs) > 0 {", "  ti[document.EquivalentIDProperty] = equivalentIDs", "}", "if createRequestJCS != \"\" {", "  id = fmt.Sprintf(\"%s:%s\", id, createRequestJCS)", "}", "ti[document.IDProperty] = id", "return ti"]
+
+/-- pkg/docutil/docutil.go:GetCreateResult -/
+def skel_docutil_GetCreateResult : List String :=
+  ["anchored := &operation.AnchoredOperation{...}", "rm := &protocol.ResolutionModel{...}", "rm, err := pv.OperationApplier().Apply(anchored, rm)", "if err != nil {", "  return nil, err", "}", "if len(rm.Doc.JSONLdObject()) == 0 {", "  return nil, error(...)", "}", "return rm, nil"]
+
+/-- pkg/vdr/sidetreelongform/dochandler/protocolversion/versions/v1_0/client/client.go:Create -/
+def skel_client_Create : List String :=
+  ["p := protocolcfg.GetProtocolConfig()", "op := operationparser.New(p)", "dc := doccomposer.New()", "oa := operationapplier.New(p, op, dc)", "dv := didvalidator.New()", "dt := didtransformer.New( didtransformer.WithMethodContext(config.MethodContext), didtransformer.WithBase(config.EnableBase))", "return &vcommon.ProtocolVersion{...}, nil"]
+
+/-- pkg/vdr/sidetreelongform/vdr.go:Create -/
+def skel_vdr_Create : List String :=
+  ["didMethodOpts := &vdrapi.DIDMethodOpts{...}", "for _ := range opts {", "  opt(didMethodOpts)", "}", "createOpt := make([]create.Option, 0)", "if didMethodOpts.Values[UpdatePublicKeyOpt] == nil {", "  updateKey, _, err := ed25519.GenerateKey(rand.Reader)", "  if err != nil {", "    return nil, error(...)", "  }", "  didMethodOpts.Values[UpdatePublicKeyOpt] = updateKey", "}", "updatePublicKey, ok := didMethodOpts.Values[UpdatePublicKeyOpt].(crypto.PublicKey)", "if !ok {", "  return nil, error(...)", "}", "if didMethodOpts.Values[RecoveryPublicKeyOpt] == nil {", "  recoveryKey, _, err := ed25519.GenerateKey(rand.Reader)", "  if err != nil {", "    return nil, error(...)", "  }", "  didMethodOpts.Values[RecoveryPublicKeyOpt] = recoveryKey", "}", "recoveryPublicKey, ok := didMethodOpts.Values[RecoveryPublicKeyOpt].(crypto.PublicKey)", "if !ok {", "  return nil, error(...)", "}", "for i := range did.AlsoKnownAs {", "  createOpt = append(createOpt, create.WithAlsoKnownAs(did.AlsoKnownAs[i]))", "}", "for i := range did.Service {", "  createOpt = append(createOpt, create.WithService(&did.Service[i]))", "}", "pks, err := getSidetreePublicKeys(did)", "if err != nil {", "  return nil, err", "}", "keyIDs := make([]string, 0, len(pks))", "for k := range pks {", "  keyIDs = append(keyIDs, k)", "}", "sort.Strings(keyIDs)", "for _ := range keyIDs {", "  createOpt = append(createOpt, create.WithPublicKey(pks[k].publicKey))", "}", "createOpt = append(createOpt, create.WithMultiHashAlgorithm(sha2_256), create.WithUpdatePublicKey(updatePublicKey), create.WithRecoveryPublicKey(recoveryPublicKey))", "createdDID, err := v.sidetreeClient.CreateDID(createOpt...)", "if err != nil {", "  return nil, err", "}", "return createdDID, nil"]
+
+/-- pkg/vdr/sidetreelongform/vdr.go:Read -/
+def skel_vdr_Read : List String :=
+  ["resolutionResult, err := v.sidetreeDocHandler.ResolveDocument(longFormDID)", "if err != nil {", "  return nil, err", "}", "resolutionResultBytes, err := json.Marshal(resolutionResult)", "if err != nil {", "  return nil, err", "}", "documentResolution, err := docdid.ParseDocumentResolution(resolutionResultBytes)", "if err != nil {", "  return nil, err", "}", "return &docdid.DocResolution{...}, nil"]
+
+/-- pkg/vdr/sidetreelongform/vdr.go:getSidetreePublicKeys -/
+def skel_vdr_getSidetreePublicKeys : List String :=
+  ["pksMap := make(map[string]*pk)", "ver := make([]docdid.Verification, 0)", "ver = append(ver, didDoc.Authentication...)", "ver = append(ver, didDoc.AssertionMethod...)", "ver = append(ver, didDoc.CapabilityDelegation...)", "ver = append(ver, didDoc.CapabilityInvocation...)", "ver = append(ver, didDoc.KeyAgreement...)", "for _ := range ver {", "  var purpose string", "  switch v.Relationship {", "  case docdid.Authentication:", "    purpose = doc.KeyPurposeAuthentication", "  case docdid.AssertionMethod:", "    purpose = doc.KeyPurposeAssertionMethod", "  case docdid.CapabilityDelegation:", "    purpose = doc.KeyPurposeCapabilityDelegation", "  case docdid.CapabilityInvocation:", "    purpose = doc.KeyPurposeCapabilityInvocation", "  case docdid.KeyAgreement:", "    purpose = doc.KeyPurposeKeyAgreement", "  default:", "    return nil, error(...)", "  }", "  s := strings.Split(v.VerificationMethod.ID, \"#\")", "  id := s[0]", "  if len(s) > 1 {", "    id = s[1]", "  }", "  value, ok := pksMap[id]", "  if ok {", "    value.publicKey.Purposes = append(value.publicKey.Purposes, purpose)", "    continue", "  }", "  switch  {", "  case v.VerificationMethod.JSONWebKey() != nil:", "    pksMap[id] = &pk{...}", "  case v.VerificationMethod.Value != nil:", "    pksMap[id] = &pk{...}", "  default:", "    return nil, error(...)", "  }", "}", "return pksMap, nil"]
+
+/-- pkg/vdr/sidetreelongform/vdr.go:sendRequest -/
+def skel_vdr_sendRequest : List String :=
+  ["didResolution, err := v.sidetreeDocHandler.ProcessOperation(req)", "if err != nil {", "  return nil, err", "}", "return json.Marshal(didResolution)"]
+
 /-- pkg/versions/1_0/operationapplier/operationapplier.go:Apply -/
 def skel_Apply : List String :=
   ["switch op.Type {", "case operation.TypeCreate:", "  return s.applyCreateOperation(op, rm)", "case operation.TypeUpdate:", "  return s.applyUpdateOperation(op, rm)", "case operation.TypeDeactivate:", "  return s.applyDeactivateOperation(op, rm)", "case operation.TypeRecover:", "  return s.applyRecoverOperation(op, rm)", "default:", "  return nil, error(...)", "}"]
